@@ -354,7 +354,8 @@ def initialize():
             f_kind="C_LONG_LONG",
             f_module=dict(iso_c_binding=["C_LONG_LONG"]),
             PY_format="L",
-            # #- PY_ctor='PyInt_FromLong({ctor_expr})',
+            PY_ctor="PyLong_FromLongLong({ctor_expr})",
+            PY_get="PyLong_AsLongLong({py_var})",
             PYN_typenum="NPY_LONGLONG",
             LUA_type="LUA_TNUMBER",
             LUA_pop="lua_tointeger({LUA_state_var}, {LUA_index})",
@@ -425,7 +426,8 @@ def initialize():
             f_kind="C_LONG_LONG",
             f_module=dict(iso_c_binding=["C_LONG_LONG"]),
             PY_format="L",
-            # #- PY_ctor='PyInt_FromLong({ctor_expr})',
+            PY_ctor="PyLong_FromUnsignedLongLong(\t{ctor_expr})",
+            PY_get="PyLong_AsUnsignedLongLong({py_var})",
             PYN_typenum="NPY_LONGLONG",
             LUA_type="LUA_TNUMBER",
             LUA_pop="lua_tointeger({LUA_state_var}, {LUA_index})",
